@@ -365,4 +365,5 @@ PROPS["C07"]["coq_props"] = ["C07", "C03b"]
 for _p in ("C03", "C07"):
     PROPS[_p]["assumptions"] = [a for a in PROPS[_p]["assumptions"] if "container/heap" not in a] + [
         "container/heap is TRANSCRIBED (Txcache/Heap.v: Init/Push/Pop/up/down with fuel proved sufficient) and its Pop is PROVED to return the element the model's "
-        "pick_best / worst_index designates, keeping a heap over the remaining cursors (Props/C03b.v); the whole-loop simulation heap-loop = model loop is composed per step, not stated end to end"]
+        "pick_best / worst_index designates, keeping a heap over the remaining cursors; the WHOLE loops run on that heap (Txcache/HeapLoop.v: heap.Init, a heap.Push per bunch, heap.Pop/heap.Push per iteration, all eviction passes) "
+        "are PROVED equal to the models used elsewhere: heap_select = select for all bunches with distinct hashes, hdo_eviction = do_eviction for all pools satisfying the invariant (Props/C03b.v)"]
